@@ -749,7 +749,7 @@ pub fn c05(ctx: &mut Ctx, tier: &str, seed: u64) {
     let t = tier_is_thorough(tier);
     for win in [false, true] {
         let e = gen::e(win);
-        let dom = if win { dom_win_small(tier, seed) } else { dom_unix_small(tier, seed) };
+        let dom = gen::c05_small(win, tier, seed);
         let pairs = gen::pairs_related(&dom, win, if t { 40 } else { 8 }, seed);
         let mut hs: HashSet<WindowsPathBuf> = HashSet::new();
         let mut bs: BTreeSet<WindowsPathBuf> = BTreeSet::new();
